@@ -647,3 +647,20 @@ m("x8-sweep-word-size-test-ge-16", "C06", VM, "        if size_of::<usize>() > 4
 m("x8-sweep-xen-default-prot-overrides", "C15", XN, "        if range.prot.is_none() {", "        if !(range.prot.is_none()) {", "R15.3.xen_default_only_when_none")
 m("x8-sweep-xen-default-flags-always", "C15", XN, "            None => range.flags = Some(libc::MAP_NORESERVE | libc::MAP_SHARED),\n        }", "            None => {}\n        }\n        range.flags = Some(libc::MAP_NORESERVE | libc::MAP_SHARED);", "R15.3.xen_default_only_when_none")
 m("x8-get-unwrap-off-by-one", "C07", MM, "if self.regions.get(region_index).unwrap().mapping.size() as GuestUsize == size {", "if self.regions.get(region_index + 1).unwrap().mapping.size() as GuestUsize == size {", "?")
+
+# the width routine merged into the stepping pass (accepted since refactor round 6), each with one defect
+_CS_ORIG = "                unsafe { copy_single(min_align, src, dst) };"
+def _cs_inline(w4="u32", arms="8 | 4 | 2 | 1", a8="8", rd="src", wr="dst"):
+    return f"""                unsafe {{
+                    match min_align {{
+                        {a8} => write_volatile({wr} as *mut u64, read_volatile({rd} as *const u64)),
+                        4 => write_volatile({wr} as *mut {w4}, read_volatile({rd} as *const {w4})),
+                        2 => write_volatile({wr} as *mut u16, read_volatile({rd} as *const u16)),
+                        1 => write_volatile({wr}, read_volatile({rd})),
+                        _ => unreachable!(),
+                    }}
+                }}"""
+m("x8-merged-width-arm-4-as-u16", "C06", VM, _CS_ORIG, _cs_inline(w4="u16"), "?")
+
+m("x8-merged-width-read-through-dst", "C06", VM, _CS_ORIG, _cs_inline(rd="dst as *const u8"), "?")
+m("x8-merged-default-arm-reachable", "C07", VM, _CS_ORIG, _cs_inline(a8="16"), "?")
